@@ -27,7 +27,7 @@ func zzIncludeAndIndex(sm *StateMachine, st *zzStore, txs ...[]byte) (*lib.Apply
 	return r, err
 }
 
-//zz:harness mode=int unwind=60 maxpaths=40000 timebudget=1500 replay=model
+//zz:harness mode=int unwind=60 maxpaths=40000 timebudget=1500 replay=model param.fixparties@quick=1
 //zz:reach O1.included-once
 func ZZ_C06_O1_identical_bytes() {
 	w := zzWorldValues()
@@ -72,7 +72,7 @@ func ZZ_C06_O2_O3_domain_and_window() {
 	zzAssert("O3.created-height-not-too-old", h <= BlockAcceptanceRange || spec.created >= h-BlockAcceptanceRange)
 }
 
-//zz:harness mode=int unwind=60 maxpaths=40000 timebudget=1500 replay=model
+//zz:harness mode=int unwind=60 maxpaths=40000 timebudget=1500 replay=model param.fixparties@quick=1
 //zz:reach O4.included-once
 func ZZ_C06_O4_reencoded_bytes() {
 	w := zzWorldValues()
